@@ -10,7 +10,7 @@ from props.base import to_request, corpus_for  # noqa: F401
 
 ID = 'C03'
 CASE_TIMEOUT = None      # impl() runs each program under its own alarm (case['timeout'])
-LEAN_MODULES = ['PybtexModel.Props.C03']
+LEAN_MODULES = ['PybtexModel.Props.C03', 'PybtexModel.Props.C03x']
 THEOREMS = {
     'C03_builtin_short_stack': "[model wiring] pins the model's own equation (closed form; tie to builtins.py: the correspondence check): every built-in pops arity(b) raw values first (Python order) and only then looks at them: on a shorter stack it raises BibTeXError(pop from empty stack) whatever the types of the values present",
     'C03_builtin_plus': "[model wiring] pins the model's own equation (closed form; tie to builtins.py: the correspondence check): a b + pushes a+b; fewer than two values -> BibTeXError(pop from empty stack) whatever they are; a non-integer operand -> TypeError (internal), never a default",
@@ -83,6 +83,10 @@ THEOREMS = {
     'C03_output': 'for a run that ends ok within the given fuel: the .bbl text is the concatenation of the emitted lines = render (independent fold) of the trace of the run, i.e. of the write$ / newline$ calls executed, in order: each newline$ contributes wrap(text written since the previous newline$) + "\\n", text after the last newline$ is discarded; the trace is a ghost component the model writes itself (tied to lines / buffer by C03_trace)',
     'C03_output_render': 'facts about the SPEC functions render / emit alone (unfolding of the event semantics): write accumulates, newline emits wrap(pending) + "\\n", events extend the emitted text',
     'C03_output_only_write_newline': 'no built-in other than write$ / newline$ (and the three that execute code) touches the emitted lines or the buffer',
+    'C03_straight_line_fuel': 'fuel SUFFICES for straight-line code: for every state s and every function body whose elements are literals, function literals, quoted names, or names that are unbound or bound in s to anything but a FUNCTION and the built-ins if$ / while$ / call.type$ (hypothesis straight s.vars body), the run finishes (state or error other than out-of-fuel) within length + 3 units of fuel and every larger amount of fuel gives the very same result; no claim for bodies that call functions, if$, while$ or call.type$',
+    'C03_sort_only': '[model wiring] the function-level entry sortOnly (driver op bstsort, compared with Interpreter.command_sort) is the SORT command of the model on the state holding exactly the given citation list and sort.key$ entries, whatever the fuel and the run parameters - so C03_sort / C03_sort_unique speak about what that op computes',
+    'C03_tables_match_source': 'the tables the model hard-codes are those of the source tree of this run (Gen/BstBuiltins.lean, regenerated every run; by evaluation): builtinTable has exactly the keys of pybtex.bibtex.builtins.builtins; initVars holds besides them exactly global.max$ = 20000 and entry.max$ = 250 (Integer) and sort.key$ (EntryString); runCommand has a branch for exactly the command_* methods of Interpreter, and every command the .bst parser accepts (BstParser.COMMANDS) is one of them, so the Unknown-command branch of Interpreter.run is unreachable from a parsed file',
+    'C03_apply_named': '[model wiring] the function-level entry applyNamed (driver op bstbuiltin, compared with vars[name].execute(interpreter)) is execTok of the name with one more unit of fuel, for a bound name',
 }
 RULE = ('well-typed straight-line programs: every sequence of up to the tier length of typed units (literals from the operand pool, '
         'fields incl. a missing one, every built-in with its operand shapes, global and entry variables) that type-checks from the empty '
@@ -103,6 +107,12 @@ RULE = ('well-typed straight-line programs: every sequence of up to the tier len
         'letter cases, a database delivered by another reader (bib_format=YAML) with person fields; '
         'family width: "<s>" width$ for strings with ordinary groups that contain backslashes, special characters of every shape (also the 13 foreign '
         'characters), unclosed groups and stray braces, in contexts, pairs and random strings over {a M blank { } \\ {\\ \' . 1 - ~ ...}; '
+        'family unmatched-brace: text.prefix$ (every count), text.length$, purify$, change.case$, width$, substring$ on operands with unmatched closing '
+        'braces at brace level 0 in front of groups / special characters, and the chain substring$ -> text.prefix$ that cuts a group in two; '
+        'FUNCTION LEVEL (ops bstbuiltin / bstsort, props/c03_fn.py): every built-in executed as builtins[name] on a Python stack (strings with double '
+        'quotes, line feeds, %, all kinds of white space, non-ASCII letters / marks / non-BMP characters - ASCII only for purify$ / change.case$ / '
+        'format.name$), variable objects and function values, with and without a current entry; := on every kind of variable; if$ / while$ on '
+        'function values and quoted names; command_sort alone on keys with any code points; '
         'non-trivial = program with at least one built-in; distinct by program text')
 TRUSTED = ['a value pushed by \'name is modelled as a reference by name (differs from the code only when a variable is re-declared while '
            'such a reference is on the stack; never generated)',
@@ -114,12 +124,22 @@ TRUSTED = ['a value pushed by \'name is modelled as a reference by name (differs
            'the oracle clause width_as_bibtex compares width$ with bibtex_x_width, a statement-by-statement transliteration of bibtex.web\'s x_width in '
            'the harness (over pybtex\'s width table; the five ligature widths 500 / 722 / 778 / 903 / 1014 as in bibtex.web), independent of pybtex\'s scanner and of '
            'the Lean model; a difference that lies only in what the text of a special character adds is the recorded finding C03-width-special-char-contents',
+           'the oracle clause prefix_as_bibtex compares text.prefix$ with bibtex_x_text_prefix (props/c03_fn.py), a statement-by-statement transliteration of '
+           'bibtex.web\'s x_text_prefix, independent of pybtex\'s scanner and of the Lean model; not judged where the prefix ends in a special character the '
+           'string does not close (pybtex closes it with one brace whatever its inner nesting: C12_prefix_is_prefix) and for counts <= 0',
+           'the clauses builtins_documented / sort_documented (props/c03_fn.py) compute the documented result of the built-ins that need no TeX knowledge '
+           '(+ - < > = * duplicate$ swap$ pop$ skip$ quote$ missing$ empty$ int.to.str$ chr.to.int$ int.to.chr$ add.period$ cite$) and of SORT in Python, '
+           'independently of pybtex and of the Lean model',
+           'function level (op bstbuiltin): the harness builds the interpreter state by hand (Interpreter(None, "utf-8"), declarations through Interpreter.run, '
+           'a one-entry BibliographyData, current_entry_key / current_entry / current_entry_vars as _iterate sets them, i.stack) - that this is the state '
+           'the built-ins meet inside a run is what the end-to-end op bstrun checks; Entry.type is read back from the real Entry',
            'St.trace (the list of write$ / newline$ calls executed) is a ghost component of the model state: nothing in the model reads it, '
            'the driver does not print it; it is the vocabulary of C03_output / C03_trace']
 ASSUMPTIONS = ['the output is pinned for well-typed programs (Python raises TypeError/AttributeError where BibTeX prints a message); on ill-typed '
                'operands the model follows the pinned Python code: same error class, and the same ordinary result where Python has one',
-               'while$ loops are counter bounded; no non-ASCII letters (non-ASCII characters only where no letter case, width table or '
-               'purification is involved)',
+               'while$ loops are counter bounded; no non-ASCII letters where letter case or purification is involved (purify$, change.case$, '
+               'format.name$: the model uses the ASCII character classes there; C12 has the Unicode-generic primitives); at function level non-ASCII '
+               'strings reach every other built-in, width$ (whole width table regenerated) included',
                'int.to.chr$ of a surrogate code point (0xD800-0xDFFF) is outside the model (a Lean Char cannot hold a lone surrogate): the '
                'model stops with an internal error marked unmodelled: (C03_builtin_int_to_chr) and the check compares the class UNMODELLED only',
                'a program has at most one READ (format_from_strings closes its StringIO inputs: a second READ raises ValueError there, the '
@@ -246,6 +266,9 @@ def errclass_view(case, io):
 
 
 def impl(case):
+    if case['op'] != 'bstrun':
+        from props import c03_fn
+        return c03_fn.impl(case)
     io = impl_raw(case)
     if case.get('errclass'):
         return errclass_view(case, io)
@@ -304,6 +327,9 @@ def impl_raw(case):
 
 
 def to_request(case):  # noqa: F811
+    if case['op'] != 'bstrun':
+        from props import c03_fn
+        return c03_fn.to_request(case)
     req = {'op': 'bstrun', 'bst': case['bst'], 'bibs': case['bibs'], 'citations': case['citations'],
            'min_crossrefs': case['min_crossrefs'], 'fuel': case.get('fuel', FUEL)}
     if case.get('bib_format') == 'yaml':
@@ -319,6 +345,9 @@ def to_request(case):  # noqa: F811
 
 
 def model_out(case, reply):
+    if case['op'] != 'bstrun':
+        from props import c03_fn
+        return c03_fn.model_out(case, reply)
     o = reply['out']
     if 'error' in o:
         if case.get('errclass') and o['error'][0] == 'INTERNAL' and o['error'][1].startswith('unmodelled:'):
@@ -472,7 +501,10 @@ KNOWN_MATCHERS = {
 def oracle(case, io, reply):
     """C03 pins the output: for a well-typed program of the generated family the engine must produce what the semantics
     (the Lean model, tied to the documented built-ins by the C03 theorems) defines."""
-    fails = execute_scope_clause(case, io) + width_clause(case, io)
+    if case['op'] != 'bstrun':
+        from props import c03_fn
+        return c03_fn.oracle(case, io, reply)
+    fails = execute_scope_clause(case, io) + width_clause(case, io) + prefix_clause(case, io)
     mo = model_out(case, reply)
     if ('error' in io and io['error'][0] == 'OUT-OF-FUEL') or ('error' in mo and mo['error'][0] == 'OUT-OF-FUEL'):
         return fails
@@ -498,6 +530,8 @@ def buckets(case, io):
 
 
 def nontrivial(case, io):
+    if case['op'] != 'bstrun':
+        return True
     return '$' in case['bst'].split('READ')[0].split('FUNCTION', 1)[-1] or ':=' in case['bst']
 
 
@@ -1154,8 +1188,61 @@ def width_family(rng, nrandom):
     return out
 
 
+# ---- unmatched closing braces at brace level 0 in front of groups / special characters -------------------------------------------------
+# A right brace at brace level 0 does not lower the level (BibTeX: `if sp_brace_level > 0 then decr`), so the groups behind it are at
+# level 1, 2, ... and text.prefix$ has to close exactly the groups still open where the prefix stops - NOT "as many as there are more
+# left than right braces in the prefix".  Such operands come from a style string literal or from substring$ cutting a group in two.
+UNMATCHED = ['}cd {efg} h', 'x}y{z{w', '}{ab}c', '}}{a{b}c}d', 'a}b{c}d', "}{\\'e}x{yz}", 'a}{b{c}}{d', '}{a}{b}{c', 'x}}}{y', '}{{{a}b}c}d', '} {a b', 'a}{\\TeX book}{c}']
+UNMATCHED_BASES = ['{ab}cd {efg} h', "{x{y}z}w{\\'e}{uv}", '{a}{b}{c{d}e}f']
+
+
+def prefix_clause(case, io):
+    """family unmatched-brace: the program prints `"<s>" #n text.prefix$` between [ ]; it has to be x_text_prefix(s, n) of bibtex.web
+    (transliteration in props/c03_fn.py, independent of pybtex's scanner and of the Lean model)."""
+    if 'prefix_of' not in case or 'error' in io:
+        return []
+    from props import c03_fn
+    s, n = case['prefix_of']
+    want = c03_fn.prefix_expected(s, n)
+    if want is None:
+        return []
+    line = io.get('bbl', '').split('\n')[0]
+    if line != '[' + want + ']':
+        return ['prefix_as_bibtex: "%s" #%d text.prefix$ printed %r, BibTeX\'s x_text_prefix gives %r (a right brace at brace level 0 does not lower '
+                'the level; one right brace is appended per group still open)' % (s, n, line, '[' + want + ']')]
+    return []
+
+
+def unmatched_brace_family():
+    out = []
+    for s in UNMATCHED:
+        for n in range(1, len([c for c in s if c not in '{}']) + 2):
+            c = mk('"%s" #%d text.prefix$' % (s, n), [S], 'unmatched-brace')
+            c['prefix_of'] = [s, n]
+            out.append(c)
+        out.append(mk('"%s" text.length$' % s, [I], 'unmatched-brace'))
+        out.append(mk('"%s" purify$' % s, [S], 'unmatched-brace'))
+        for m in 'tlu':
+            out.append(mk('"%s" "%s" change.case$' % (s, m), [S], 'unmatched-brace'))
+        out.append(width_program(s))
+        for a in (1, 2, 3):
+            out.append(mk('"%s" #%d #3 substring$' % (s, a), [S], 'unmatched-brace'))
+            out.append(mk('"%s" #-%d #3 substring$ purify$' % (s, a), [S], 'unmatched-brace'))
+    # substring$ cuts a group in two, text.prefix$ works on what is left
+    for base in UNMATCHED_BASES:
+        for a in range(1, len(base) + 1):
+            rest = base[a - 1:]
+            for n in range(1, 7):
+                c = mk('"%s" #%d global.max$ substring$ #%d text.prefix$' % (base, a, n), [S], 'unmatched-brace')
+                c['prefix_of'] = [rest, n]
+                out.append(c)
+            out.append(mk('"%s" #%d global.max$ substring$ text.length$' % (base, a), [I], 'unmatched-brace'))
+            out.append(mk('"%s" #%d global.max$ substring$ "u" change.case$ purify$' % (base, a), [S], 'unmatched-brace'))
+    return out
+
+
 def gen_cases(tier, rng, info):
-    cases = list(while_family()) + format_name_family() + width_family(rng, 400 if tier == 'quick' else 8000)      # first: its well-typed programs are the failing input to report for a change of the loop condition
+    cases = list(while_family()) + format_name_family() + width_family(rng, 400 if tier == 'quick' else 8000) + unmatched_brace_family()      # first: its well-typed programs are the failing input to report for a change of the loop condition
     maxlen = 2 if tier == 'quick' else 3
     na = 0
     for body, types in assign_sequences(2 if tier == 'quick' else 3):
@@ -1206,6 +1293,8 @@ def gen_cases(tier, rng, info):
                       'change.case$ / int.to.chr$ / chr.to.int$, declaration errors, MACRO redefinition and shadowing, EXECUTE before and after '
                       'ITERATE (with the probes of "EXECUTE runs outside any entry"), while$ with predicates below 0, command names in other '
                       'letter cases, a database delivered by another reader (bib_format) with person fields' % (n2, len(UNITS2), len(second) + len(while_family())))
+    from props import c03_fn
+    cases.extend(c03_fn.gen(tier, rng, info))
     return cases
 
 
@@ -1225,7 +1314,11 @@ LEVEL_TEXT = ('Machine-checked proof (Lean 4) about an executable model of the B
               'run = the list of write$ / newline$ calls executed. The string built-ins are tied to the theorems of C12 (substring$, text.length$, text.prefix$, purify$, '
               'change.case$), C11 (format.name$) and C19 (newline$). The model is tied to the code by a correspondence check that is exhaustive over '
               'well-typed straight-line programs of 90 typed units up to the tier length and over every built-in on every ill-typed stack of depth '
-              '0..3 over one operand of each kind, plus seeded random structured programs and the golden styles.')
+              '0..3 over one operand of each kind, plus seeded random structured programs and the golden styles; and FUNCTION BY FUNCTION: every built-in / variable '
+              'object executed as vars[name].execute(interpreter) on a Python stack, and command_sort alone (ops bstbuiltin / bstsort: strings no .bst literal can spell, '
+              'any code point, with and without a current entry), with clauses computed independently of model and code (x_text_prefix and x_width of bibtex.web, the '
+              'documented results of the built-ins that need no TeX knowledge, stable code-point SORT). The names of the built-ins, the initial variables and constants of '
+              'Interpreter and the command names are regenerated from the source on every run and compared with the tables of the model by C03_tables_match_source.')
 LEVEL_NOTE = ('Trusted: Lean kernel; axioms propext/Classical.choice/Quot.sound only; the hand-written model (Model/Interp.lean) corresponds to the '
               'Python code only as far as the differential check explores; a value pushed by \'name is a reference by name; the print-out of a '
               'function / variable object by top$ / stack$ is the tag <object>. Ill-typed operands where Python\'s behaviour is an ORDINARY RESULT '
@@ -1254,5 +1347,6 @@ LEVEL_NOTE = ('Trusted: Lean kernel; axioms propext/Classical.choice/Quot.sound 
               'scanner-free one-pass width, every character outside a special character counts as it is; the text of a special character by pybtex\'s rule - '
               'recorded finding C03-width-special-char-contents, where BibTeX skips control sequences and knows the 13 foreign characters); the VALUE of purify$ is '
               'specified by a model function only. All semantics is FUEL-INDEXED (the Eval judgements are "some fuel gives ok"): termination and sufficiency of '
-              'the fuel are not claimed (C03_output assumes the run ends ok); C03_iterate_order / C03_reverse_order assume Ready s (established by READ: '
+              'the fuel are not claimed (C03_output assumes the run ends ok) - except for straight-line function bodies (no FUNCTION call, if$, while$, call.type$), where '
+              'length + 3 units of fuel are proved sufficient from every state (C03_straight_line_fuel); C03_iterate_order / C03_reverse_order assume Ready s (established by READ: '
               'C03_ready) and a bound function name.')
